@@ -7,6 +7,7 @@ import random, time
 from explore import Job, run_jobs, Disagreement, impl_step, replay_with_monitor, shrink
 import wblib
 from wblib import (DecAll, DecHi, DecSet, DecRegion, make_shared, make_xbar, make_p2p, make_arbiter, make_decoder,
+                   make_socbus,
                    small_alphabet,
                    m_req, s_ack, s_silent, split_outs)
 
@@ -168,6 +169,23 @@ def jobs(tier, seed=0):
     B(lambda: make_shared(2, d64, register=True, timeout=5, data_width=64, adr_width=29,
                           name="Shared 2x2 regions reg to=5/64b [%s]" % " ".join(d.word() for d in d64)))
     B(lambda: make_p2p(data_width=32, adr_width=30))
+    # ---- end to end: real SoCBusHandler.do_finalize picks the fabric and builds the decoders from SoCRegions -------
+    # (1x1 with region origin 0 smaller than the space is an open finding, see probes(); not in the green grid)
+    soc = [dict(n=1, regions=[(0x10000000, 0x1000)], timeout=8),                       # non-zero origin -> decoder
+           dict(n=1, regions=[(0x10000000, 0x1000)], timeout=1e6, register=False),
+           dict(n=1, regions=[(0x40000000, 0x3000)], interconnect="crossbar"),
+           dict(n=1, regions=[(0, 1 << 32)], timeout=8),                              # whole space -> point to point
+           dict(n=1, regions=[(0, 0x2000), (0x80000000, 0x10000)], timeout=8),        # 1x2
+           dict(n=2, regions=[(0, 0x1000)], timeout=8),                               # 2x1, origin 0, partial
+           dict(n=2, regions=[(0x20000000, 0x800)], interconnect="crossbar"),
+           dict(n=1, regions=[(0x10000000, 0x1000)], timeout=8, extra_first=(0, 0x1000))]    # fixed finding
+    if not quick:
+        soc += [dict(n=2, regions=[(0, 0x1000), (0x10000, 0x600)], interconnect="crossbar", register=False),
+                dict(n=3, regions=_soc_regions(rng, 3), timeout=20),
+                dict(n=1, regions=[(0xfffff000, 0x1000)], timeout=None),
+                dict(n=1, regions=[(0x1000, 0x1000)], timeout=3, register=False)]
+    for kw in soc:
+        B(lambda kw=kw: make_socbus(**kw))
     # random walks over the small alphabets (3x3 registered crossbar is too large for exhaustive exploration)
     B(lambda: _walker(make_xbar(3, MAPS[3][0][1], register=True, alphabet=_alpha(3, 3, 1), name="Crossbar 3x3 cover reg walk")),
       cycles=4000 if quick else 60000)
@@ -183,6 +201,38 @@ def _cost(kind, n, m, reg, to, level):
     else:
         states = n ** m * ((m + 1) ** n if reg else 1)
     return letters * states * (1 + n * m / 3.0)
+
+
+def _soc_regions(rng, m):
+    return [(d.origin, d.size) for d in _region_map(rng, m)]
+
+
+def _topology_cases(ctx):
+    """`SoCBusHandler.do_finalize`'s choice of fabric against the model's `busTopology` (mode C), including the
+    configuration of the open finding (origin 0, partial region: the model reproduces the code's choice) and
+    slave-less regions registered first (fixed finding: they must not matter)."""
+    cases = []
+    for n in (1, 2, 3):
+        for regions in ([(0, 0x1000)], [(0, 1 << 32)], [(0x10000000, 0x1000)], [(0x1000, 0x1000)],
+                        [(0, 0x1000), (0x10000000, 0x1000)], [(0x10000000, 0x1000), (0, 0x1000)]):
+            for kind in ("shared", "crossbar"):
+                for extra in (None, (0x20000000, 0x1000)) + (((0, 0x100),) if all(o for o, _ in regions) else ()):
+                    cases.append(dict(n=n, regions=regions, interconnect=kind, extra_first=extra, timeout=8))
+    dis = []
+    lines, got = [], []
+    for kw in cases:
+        inst = make_socbus(**kw)
+        lines.append("topology " + inst.lean_open[len("socbus "):])
+        got.append((inst.topology, inst.name))
+    res = ctx.lean.call_batch(lines)
+    nontriv = 0
+    for (topo, name), r, l in zip(got, res, lines):
+        ctx.cov.count("topology_" + topo)
+        nontriv += 1
+        if r.strip() != topo:
+            dis.append({"instance": name, "kind": "correspondence", "case": l, "impl": topo, "model": r})
+    ctx.cov.add_cases("SoCBusHandler.do_finalize topology vs busTopology", len(cases), nontriv, exhaustive=False)
+    return dis[:3]
 
 
 class _Walk:
@@ -325,6 +375,12 @@ def _corpus(ctx, all_jobs):
 
 
 def _make_from_spec(spec):
+    if spec.get("kind") == "socbus":
+        kw = dict(spec["kw"])
+        kw["regions"] = [tuple(r) for r in kw["regions"]]
+        if kw.get("extra_first"):
+            kw["extra_first"] = tuple(kw["extra_first"])
+        return make_socbus(**kw)
     decs = []
     for w in spec["decs"]:
         p = w.split(":")
@@ -350,6 +406,7 @@ def correspond(ctx):
     dis += _corpus(ctx, ctx.jobs)
     dis += _rr_cases(ctx)
     dis += _region_decoder_cases(ctx)
+    dis += _topology_cases(ctx)
     dis += _self_test(ctx)
     ctx.log("corpus, RoundRobin table, SoCRegion.decoder cases, self-test done; %d fabric jobs" % len(ctx.jobs))
     d2, bad = run_jobs(ctx, ctx.jobs)
@@ -474,10 +531,18 @@ def search(ctx, disagreements, proof_info):
     return None
 
 
+def _probe_listed(ctx, fid, still, what, out):
+    if not any(e.get("id") == fid for e in ctx.known):
+        # not (yet) listed in known_findings.json: recorded in the evidence notes only
+        ctx.cov.notes.append("finding %s %s: %s" % (fid, "reproduces" if still else "does not reproduce", what))
+        ctx.log("note: %s (not listed in known_findings.json) %s" % (fid, "reproduces" if still else "does not reproduce"))
+    else:
+        out.append((fid, still, what))
+
+
 def probes(ctx):
-    """Known limitation: Decoder(register=True) returns the previously selected slave's data to a 0-latency ack."""
-    fid = "C06-registered-decoder-0-latency"
-    res = []
+    out = []
+    # 1. Decoder(register=True) returns the previously selected slave's data to a 0-latency ack (documented).
     fails = []
     for mk in (make_shared, make_xbar):
         inst = mk(1, MAPS[2][0][1], register=True)
@@ -487,13 +552,21 @@ def probes(ctx):
         m1 = split_outs(o1, 1, 2)[1][0]
         fails.append((m0[0] == 1 and m0[2] != 0x42) or (m1[0] == 1 and m1[2] != 0x17))
         what = "read of slave1 acked with dat_r=%#x (slave drove 0x42); next read of slave0 acked with %#x (slave drove 0x17)" % (m0[2], m1[2])
-    still = any(fails)
-    if not any(e.get("id") == fid for e in ctx.known):
-        # not (yet) listed in known_findings.json: documented limitation, recorded in the evidence notes
-        ctx.cov.notes.append("documented limitation %s %s: %s" % (fid, "reproduces" if still else "does not reproduce", what))
-        ctx.log("note: %s (documented limitation, not listed in known_findings.json) %s" % (fid, "reproduces" if still else "does not reproduce"))
-        return []
-    return [(fid, still, what)]
+    _probe_listed(ctx, "C06-registered-decoder-0-latency", any(fails), what, out)
+    # 2./3. SoCBusHandler.do_finalize wires point-to-point (no decoder) although the slave's region does not cover
+    #       the address space: a cycle at byte address 0x2000, outside the region, is presented to the slave.
+    for fid, kw in (("C06-p2p-partial-region-origin0", dict(n=1, regions=[(0, 0x1000)], timeout=8)),
+                    ("C06-p2p-first-region-not-slave", dict(n=1, regions=[(0x10000000, 0x1000)], timeout=8,
+                                                            extra_first=(0, 0x1000)))):
+        inst = make_socbus(**kw)
+        letter = m_req(0x2000 >> 2, sel=0xf) + s_silent(0)
+        outs = impl_step(inst, letter)
+        seen = split_outs(outs, 1, 1)[0][0][0]
+        msg = inst.monitor().observe(letter, outs)
+        what = "%s: topology %s, cycle at 0x2000 (outside the region) %s the slave%s" % (
+            inst.name, inst.topology, "reaches" if seen else "does not reach", "; monitor: " + msg if msg else "")
+        _probe_listed(ctx, fid, bool(seen), what, out)
+    return out
 
 
 def replay(ctx, payload):
